@@ -257,7 +257,7 @@ fn main() {
         "C05" => {
             let mut rng = rng::Rng::new(o.seed);
             let cases = streams::lazy_cases(&mut rng, o.tier == "thorough");
-            run_rs_stream(&o, &mut rep, "lazy-trees", "every operator of {if and or == != + contains > list map call call-of-an-unregistered-function call-of-a-cacheable-function duplicated-sub-expression index ! some &} over every tuple of 10 leaf kinds (logging non-cacheable calls returning true/false/none/value/failing with a unique argument per call site, the literals true/false/none, the call-free error i1 / i0, a cacheable failing call) exhaustively at depth 1; depth 2: every (operator, child position, child operator, child leaves) with the remaining children over {call true, call false, call failing, literal true, literal false}; depth 3 random; left-nested chains of 10 / 33 / 40 / 70 links over one or two alternating operators with the deciding or failing leaf at the start, middle or end; compared on the exact invocation sequence and the error class of the result", false, cases, "log");
+            run_rs_stream(&o, &mut rep, "lazy-trees", "every operator of {if and or == != + contains > list map call call-of-an-unregistered-function call-of-a-cacheable-function duplicated-sub-expression index ! some &} over every tuple of 13 leaf kinds (logging non-cacheable calls returning true/false/none/value/failing with a unique argument per call site, the literals true/false/none, the call-free error i1 / i0, a cacheable failing call, a reference that does not resolve, one that does, a symbol that does not) exhaustively at depth 1; depth 2: every (operator, child position, child operator, child leaves) with the remaining children over {call true, call false, call failing, literal true, literal false}; depth 3 random; left-nested chains of 10 / 33 / 40 / 70 links over one or two alternating operators with the deciding or failing leaf at the start, middle or end; compared on the exact invocation sequence and the error class of the result", false, cases, "log");
         }
         "C09" => {
             let mut rng = rng::Rng::new(o.seed);
